@@ -159,10 +159,10 @@ def parse_args(argv: "Optional[List[str]]") -> Settings:
         elif not after_flags and longarg in FLAGS:
             # --throttle and --init are the only flag that takes an argument.
             if longarg == "--throttle":
-                if i == len(argv) - 1 or not argv[i + 1].isdigit():
+                if i == len(argv) - 1 or parse_throttle(argv[i + 1]) is None:
                     sys.stderr.write("--throttle takes one integer argument.\n")
                     sys.exit(1)
-                flags[longarg] = int(argv[i + 1])
+                flags[longarg] = parse_throttle(argv[i + 1])
                 i += 1
             elif longarg == "--init":
                 if i == len(argv) - 1:
@@ -174,7 +174,13 @@ def parse_args(argv: "Optional[List[str]]") -> Settings:
                 flags[longarg] = True
         # Special syntax for --init and --throttle.
         elif not after_flags and longarg.startswith("--throttle"):
-            flags["--throttle"] = int(longarg[len("--throttle=") :])
+            throttle = None
+            if longarg.startswith("--throttle="):
+                throttle = parse_throttle(longarg[len("--throttle=") :])
+            if throttle is None:
+                sys.stderr.write("--throttle takes one integer argument.\n")
+                sys.exit(1)
+            flags["--throttle"] = throttle
         elif not after_flags and longarg.startswith("--init"):
             flags["--init"] = longarg[len("--init=") :]
         elif not after_flags and longarg.startswith("-") and len(longarg) > 1:
@@ -291,6 +297,21 @@ def short_to_long(arg: str) -> str:
         return "--quiet"
     else:
         return arg
+
+
+def parse_throttle(value: str) -> "Optional[int]":
+    """
+    Parse the argument to --throttle, a non-negative decimal integer. Return None if
+    the string is ill-formatted.
+    """
+    if not value or any(c not in "0123456789" for c in value):
+        return None
+
+    try:
+        return int(value)
+    except ValueError:
+        # Too many digits for Python to convert.
+        return None
 
 
 def parse_init_string(initstr: str) -> "Optional[List[Tuple[int, int]]]":
